@@ -166,6 +166,24 @@ theorem added_pointer_recovered (s : Sec) (p : Ptr) (hv : Valid p) (hd : section
     unfold enc; split <;> simp_all [kVersion]
   simp [secResult, finish, hd, hne, Lfs.dec_enc hv]
 
+/-- **every version a pointer may carry is seen by the log scanner**: for each of the version URLs the pointer
+    decoder accepts (`v1Aliases`, regenerated from lfs/pointer.go) the line `version <url>` of a diff — added,
+    removed or context — is classified as pointer data by the expression regenerated from
+    lfs/gitscanner_log.go.  (D69: the expression named the current URL only, so a pointer written with an
+    earlier one lost its version line, did not decode, and its object was pruned from an unpushed commit.) -/
+theorem every_pointer_version_line_is_data :
+    ∀ v ∈ Gen.v1Aliases, ∀ s ∈ [(43 : UInt8), 45, 32],
+      classify (s :: (kVersion ++ 32 :: v)) = .data s (kVersion ++ 32 :: v) := by
+  decide
+
+/-- and so are the other lines of a pointer: `oid sha256:…`, `size …`, `ext-N-…` -/
+theorem oid_size_ext_lines_are_data (rest : Bytes) (s : UInt8) (hs : s = 43 ∨ s = 45 ∨ s = 32) :
+    classify (s :: ([111, 105, 100, 32, 115, 104, 97, 50, 53, 54] ++ rest)) = .data s ([111, 105, 100, 32, 115, 104, 97, 50, 53, 54] ++ rest) ∧
+    classify (s :: ([115, 105, 122, 101] ++ rest)) = .data s ([115, 105, 122, 101] ++ rest) ∧
+    classify (s :: ([101, 120, 116, 45] ++ rest)) = .data s ([101, 120, 116, 45] ++ rest) := by
+  rcases hs with h | h | h <;> subst h <;>
+    simp [classify, isPrefix, sCommit, sDiffGit, sDiffCc, dataPrefixes, Gen.logDataPrefixes]
+
 end logscan
 
 /-- non-vacuity -/
